@@ -16,7 +16,9 @@ package ledger
 //         app_global_put uint / bytes and app_global_del for keys {k1,k2,k3};
 //         app_local_put uint / bytes and app_local_del for keys {k1,k2,k3} by the two
 //         accounts A, B on their own local state (quick tier: B only puts k1); opt-in /
-//         close-out / clear-state of A, B; delete-app; END-BLOCK.
+//         close-out / clear-state of A, B; delete-app; END-BLOCK; application UPDATE carrying
+//         a new global schema (ints,bytes) in {0..3}^2 (accepted iff the stored keys still
+//         fit per type; (0,0) = no resize) - in the "kv+update" plans.
 //   family: a reduced box alphabet performed both by the dispatcher and by a sibling app of
 //         the same creator through app_box_create/put/resize/splice/del on the
 //         dispatcher's boxes, plus app_params_set AppFamilyBoxAccess on/off (the sibling
@@ -204,9 +206,10 @@ const (
 	c23kBDel
 	c23kEndBlock
 	c23kFamily
+	c23kUpdate // UpdateApplication carrying a new global schema (n ints, m bytes; 0,0 = programs only)
 )
 
-var c23kindNames = [...]string{"create", "gput", "gdel", "lput", "ldel", "optin", "closeout", "clear", "delapp", "box_create", "box_put", "box_resize", "box_replace", "box_splice", "box_del", "END-BLOCK", "family_access"}
+var c23kindNames = [...]string{"create", "gput", "gdel", "lput", "ldel", "optin", "closeout", "clear", "delapp", "box_create", "box_put", "box_resize", "box_replace", "box_splice", "box_del", "END-BLOCK", "family_access", "update"}
 
 type c23op struct {
 	kind int
@@ -240,6 +243,8 @@ func (o c23op) String() string {
 		return fmt.Sprintf("%s%s(%q)", map[bool]string{true: "sibling.app_"}[o.sib], c23kindNames[o.kind], c23boxNames[o.x])
 	case c23kFamily:
 		return fmt.Sprintf("family_access(%d)", o.n)
+	case c23kUpdate:
+		return fmt.Sprintf("update(global schema ints=%d,bytes=%d)", o.n, o.m)
 	}
 	return c23kindNames[o.kind]
 }
@@ -281,7 +286,7 @@ func c23familyAlphabet() []c23op {
 
 // c23kvAlphabet: full=false (quick tier) gives account B only two put operations (A and B
 // are symmetric; B still opts in/out and interleaves with A).
-func c23kvAlphabet(full bool) []c23op {
+func c23kvAlphabet(full bool, updates bool) []c23op {
 	var ops []c23op
 	for n := 0; n <= 2; n++ {
 		for m := 0; m <= 2; m++ {
@@ -309,6 +314,12 @@ func c23kvAlphabet(full bool) []c23op {
 		ops = append(ops, c23op{kind: c23kCloseOut, x: x}, c23op{kind: c23kClear, x: x})
 	}
 	ops = append(ops, c23op{kind: c23kDelApp}, c23op{kind: c23kEndBlock})
+	// application update with every target global schema in {0..3}^2 (0,0 = no resize)
+	for n := 0; updates && n <= 3; n++ {
+		for m := 0; m <= 3; m++ {
+			ops = append(ops, c23op{kind: c23kUpdate, n: n, m: m})
+		}
+	}
 	return ops
 }
 
@@ -353,6 +364,15 @@ func (ref *c23ref) judge(o c23op) (bool, func(r *c23ref)) {
 	switch o.kind {
 	case c23kFamily:
 		return true, func(r *c23ref) { r.Fam = o.n != 0 }
+	case c23kUpdate:
+		if o.n == 0 && o.m == 0 {
+			return true, none // programs only, the schema stays
+		}
+		// the new schema must still hold what is stored, per type
+		if u, b := c23counts(ref.G); u > o.n || b > o.m {
+			return no()
+		}
+		return true, func(r *c23ref) { r.GS = [2]int{o.n, o.m} }
 	case c23kGPut:
 		g := ref.G
 		g[o.k] = o.t
@@ -595,6 +615,10 @@ func (s *c23sys) build(o c23op, app basics.AppIndex, note string) *txntest.Txn {
 		boxes()
 	case c23kFamily:
 		args([...]string{"f0", "f1"}[o.n])
+	case c23kUpdate:
+		tx.OnCompletion = transactions.UpdateApplicationOC
+		tx.ApprovalProgram, tx.ClearStateProgram = e.approv, e.clear
+		tx.GlobalStateSchema = basics.StateSchema{NumUint: uint64(o.n), NumByteSlice: uint64(o.m)}
 	}
 	tx.FirstValid = s.ev.Round()
 	tx.GenesisHash = s.l.GenesisHash()
@@ -1181,13 +1205,15 @@ func TestVerif_C23(t *testing.T) {
 		}
 	}()
 
-	boxOps, kvOps := c23boxAlphabet(), c23kvAlphabet(ve.Thorough())
+	boxOps, kvOps, kvUpOps := c23boxAlphabet(), c23kvAlphabet(ve.Thorough(), false), c23kvAlphabet(ve.Thorough(), true)
 	type plan struct {
 		name  string
 		x     *c23explore
 		depth int
 	}
 	plans := []plan{
+		{"kv+update/app/groups", &c23explore{e: envApp, ops: kvUpOps}, ve.Pick(3, 4)},
+		{"kv+update/app/onegroup", &c23explore{e: envApp, ops: kvUpOps, onegroup: true}, ve.Pick(3, 4)},
 		{"kv/app/groups", &c23explore{e: envApp, ops: kvOps}, ve.Pick(4, 5)},
 		{"box/app/groups", &c23explore{e: envApp, ops: boxOps}, ve.Pick(4, 5)},
 		{"kv/bare/groups", &c23explore{e: envBare, ops: kvOps}, ve.Pick(4, 5)},
@@ -1195,6 +1221,7 @@ func TestVerif_C23(t *testing.T) {
 		{"box/flushed/groups", &c23explore{e: envFlushed, ops: boxOps}, ve.Pick(3, 4)},
 		{"box/app/onegroup", &c23explore{e: envApp, ops: boxOps, onegroup: true}, ve.Pick(4, 5)},
 		{"kv/bare/onegroup", &c23explore{e: envBare, ops: kvOps, onegroup: true}, ve.Pick(4, 5)},
+		{"kv+update/bare/groups", &c23explore{e: envBare, ops: kvUpOps}, ve.Pick(3, 4)},
 	}
 	var cov ve.Coverage
 	cov.Exhaustive = true
